@@ -35,7 +35,8 @@ Record section := {
 Record wrapper := {
   w_name : string;
   w_shape : shape;           (* Irregular: the translator could not establish the sections *)
-  w_sections : list section
+  w_sections : list section;
+  w_escapes : list N         (* shared memory that the RETURNED values point to directly *)
 }.
 
 Definition mode_eqb (a b : mode) : bool :=
@@ -88,6 +89,21 @@ Definition pair_ok (s1 s2 : section) : bool :=
 Definition table_ok (T : list wrapper) : bool :=
   forallb shape_ok T &&
   forallb (fun s1 => forallb (pair_ok s1) (all_sections T)) (all_sections T).
+
+(* A wrapper may hand a reference to shared memory to its caller (a slice of the model, say);
+   the caller reads it after the lock is released.  That is modelled as a lock-free pseudo-call
+   "<name>$result" whose only section plainly reads the memory the returned values point to;
+   table_ok is evaluated on the table extended with these readers, so a returned reference to
+   memory that any section writes is rejected (finding F38 had this shape). *)
+Definition result_reader (w : wrapper) : wrapper :=
+  {| w_name := w_name w ++ "$result"; w_shape := Regular;
+     w_sections := match w_escapes w with
+                   | [] => []
+                   | ls => [ {| s_mode := NoLock; s_callees := []; s_pr := ls; s_pw := []; s_ar := []; s_aw := [] |} ]
+                   end;
+     w_escapes := [] |}.
+
+Definition with_result_readers (T : list wrapper) : list wrapper := T ++ map result_reader T.
 
 (* ------------------------------------------------------------------ 2. the machine *)
 
